@@ -105,6 +105,11 @@ func (p *MetadataPersister) UpsertHeader(ctx context.Context, dbhdr *config.Head
 	hdr := *idbhdr
 	if !initializing {
 		hdr.Name = p.getSanitizedPath(ctx, idbhdr.Name)
+
+		// Links are looked up by their sanitized path too
+		if idbhdr.Linkname != "" {
+			hdr.Linkname = p.getSanitizedPath(ctx, idbhdr.Linkname)
+		}
 	}
 
 	if _, err := models.Headers(
